@@ -9,6 +9,15 @@ if [ -d tools/factgen ]; then
   (cd tools/factgen && go run . -repo "${VERIF_REPO:-/repo}" -out ../../lean/TmVerif/Facts/Generated.lean)
 fi
 python3 tools/gendrivers.py
-(cd lean && lake build TmVerif tmv)
+MODS=$(python3 -c "
+import json
+c=json.load(open('tools/claims.json'))
+import os
+for k,v in sorted(c.items()):
+    if k.startswith('_') or v.get('not_applicable'): continue
+    for f in sorted(os.listdir('lean/TmVerif/Props')):
+        if f.startswith(k) and f.endswith('.lean'): print('TmVerif.Props.'+f[:-5])
+")
+(cd lean && lake build tmv $MODS)
 (cd harness && cp -f "${VERIF_REPO:-/repo}/go.sum" go.sum 2>/dev/null || true; go build -tags verif -o ../.build/tmh ./cmd/tmh)
 echo setup-ok
